@@ -99,10 +99,12 @@ class Model(object):
         return None
 
     # ---------------------------------------------------------------- a complete message
-    def route(self, conn, mtype, dest, h, size, malformed=False, requested_reply=False):
+    def route(self, conn, mtype, dest, h, size, malformed=False, requested_reply=False, rx_denied=False):
         """The last byte of a message of `size` bytes announcing h descriptors arrived from conn.
         requested_reply: the message is the expected reply to a pending call (dbus-daemon(1): a <deny> rule
-        without send_requested_reply="true" matches replies only when they were not requested)."""
+        without send_requested_reply="true" matches replies only when they were not requested).
+        rx_denied: the message's interface is the one a <deny receive_interface=... min_fds="1"/> rule names: every
+        recipient's RECEIVE policy refuses it when it carries a descriptor (the sender's send rules allow it)."""
         h = h or 0
         if size > self.max_size:
             return Outcome("disconnect", "oversized")
@@ -120,12 +122,14 @@ class Model(object):
             # the send policy is evaluated once per proposed recipient (a <deny send_destination=N .../> rule
             # applies to every message that would reach a connection owning N)
             rec = [c for c in self.conns.values() if c.alive and c.match and (h == 0 or c.negotiated)
-                   and not self.denied(c, h)]
+                   and not self.denied(c, h) and not (rx_denied and h >= 1)]
             return Outcome("broadcast", recipients=rec, fds=fds)
         r = self.owner(dest)
         if r is None:
             return Outcome("refuse", "no-such-name", fds=fds)
         if not requested_reply and self.denied(r, h):
+            return Outcome("refuse", "policy", fds=fds)
+        if not requested_reply and rx_denied and h >= 1:
             return Outcome("refuse", "policy", fds=fds)
         if h > 0 and not r.negotiated:
             return Outcome("refuse", "recipient-not-negotiated", fds=fds)
